@@ -280,6 +280,9 @@ def _site_of_detail(outcome, detail):
         # wait-for signature without thread numbers that depend on nothing but creation order: keep blocked kinds of the app task
         m = re.search(r't0:(\w+)', detail)
         return 'app:' + (m.group(1) if m else '?')
+    if outcome == 'TRAP_LIB_ERROR':
+        m = re.search(r'internal error (0x[0-9a-f]+)', detail)
+        return 'lib_error:' + (m.group(1) if m else '?')
     if outcome.startswith('TRAP'):
         return re.sub(r'\d+', 'N', detail)[:80]
     return outcome.lower()
